@@ -165,6 +165,20 @@ CLAIMED["C12"] = dict(
          "reader use the same unit parameter for every field (only exercised), float text formatting, QUALITY/REACTIONS/ENERGY/REPORT sections.",
     technique="Coq proof of the codec logic (arithmetic, induction over condition trees) + exact codec correspondence + whole-file round-trip differential")
 
+CLAIMED["C13"] = dict(
+    text="Proof (partial): controls and rules travel through the dictionary as text and are re-read with the INP codecs in SI units, "
+         "so the codec theorems of C12 apply (time, clock time, expressible rule conditions); the executable coverage test is proved "
+         "sound and complete (every key emitted for an element kind is one from_dict reads). The key table of from_dict is regenerated "
+         "from wntr/network/io.py on every run (translator) and compared inside coqc with the keys the real to_dict emits for every "
+         "element kind of generated models. The statement itself is then evaluated on the implementation: to_dict -> JSON -> from_dict "
+         "-> to_dict, write_json/read_json and append-to-empty on generated models (vertices, several demands, curves, sources, active / "
+         "ended / removed leaks on junctions and tanks, controls and rules) must be equal after the normalisation the property names.",
+    ref="DESIGN.md section 5 C13",
+    note="Trusted: Coq kernel (axiom-free); translator tools/translate/fromdict.py; the normalisation in tools/props/c13.py. Not proved: "
+         "that each restored key is assigned to the attribute it came from (covered by the round-trip differential on generated models "
+         "only); options sub-dictionaries.",
+    technique="Coq proof of codec logic and of the coverage test + translator-regenerated key table + dictionary/JSON round-trip differential")
+
 NOT_YET = {
 }
 
